@@ -277,6 +277,7 @@ pub fn c06(tier: Tier) -> i32 {
     run(&mut ctx, &mut acc, &profiles::two_sec(), n_two, None);
     run(&mut ctx, &mut acc, &profiles::events(&["2"]), n_ev, None);
     run(&mut ctx, &mut acc, &profiles::events_same_day(), n_ev + 2, None);
+    run(&mut ctx, &mut acc, &profiles::fx_years(), n_ev + 1, None);
     run(&mut ctx, &mut acc, &profiles::match1(&["2"], true), n_fs, Some(true));
     run(&mut ctx, &mut acc, &profiles::two_sec(), n_fs + 1, Some(false));
     // CLI file compositions on a fixed set of bases
